@@ -3,18 +3,6 @@ namespace Rules.VisitorGen
 open Rules Rules.Go Rules.Cst Rules.Gen
 open Rules.P (Tok Tree Lit)
 
-def clsErr : GErr → EvalErr
-  | .op _ => .invalidOperation
-  | .strconv => .badLiteral
-  | .nested _ _ _ => .badLiteral
-  | .new _ => .unknownOp
-
-def clsDbg : GErr → Dbg
-  | .nested (some (.op .invalidOperation)) _ _ => .invalidOperation
-  | .nested (some (.op .missing)) _ _ => .missing
-  | .nested (some (.op .invalidOperand)) _ _ => .invalidOperand
-  | _ => .other
-
 /-- the abstraction of the translated visitor's state: the path stack is kept bottom-first by the Go slice -/
 def toV (j : J) : VState :=
   { item := j.item, stack := j.stack.items.reverse, leftOp := j.leftOp, rightOp := j.rightOp,
@@ -289,7 +277,7 @@ if result == nil || visitor.err != nil { return false, visitor.err }; return res
 deferred `recover()` (this function itself is transcribed by hand: `Process` is not in the translated file) -/
 def genProcess (lower : Bytes → Bytes) (c : QueryCtx) (item : List (Bytes × Value)) : ProcOut :=
   match J_Visit lower (NewJsonQueryVisitorImpl item) c with
-  | .error p => { verdict := false, err := some (.panic p.p), debug := none, calls := p.calls }
+  | .error p => { verdict := false, err := some (.panic p.p), debug := p.debug, calls := p.calls }
   | .ok (result, visitor) =>
     match result, visitor.err with
     | _, some e => { verdict := false, err := some (clsErr e), debug := visitor.debugErr.map clsDbg, calls := visitor.calls }
@@ -306,7 +294,7 @@ theorem genProcess_eq (lower : Bytes → Bytes) (c : QueryCtx) (item : List (Byt
   generalize J_Visit lower (NewJsonQueryVisitorImpl item) c = x
   generalize visit lower (abs c) (VState.init item) = y
   rcases x with p | ⟨t1, j'⟩ <;> rcases y with p' | ⟨b, s'⟩ <;> simp [mapR]
-  · rintro rfl; exact ⟨rfl, rfl⟩
+  · rintro rfl; exact ⟨rfl, rfl, rfl⟩
   · rintro rfl rfl
     obtain ⟨item, st, cur, l, r, er, d, calls⟩ := j'
     cases er <;> simp [toV]
